@@ -16,6 +16,8 @@ type c04Op struct {
 	SetMax int64
 	// SetMax2 >= 0: a second change before the same block (lower-then-raise)
 	SetMax2 int64
+	// More: further changes before the same block
+	More []int64
 	Fields []F
 	Store  []bool
 }
@@ -70,6 +72,10 @@ func TestC04(t *testing.T) {
 				if rng.Intn(4) == 0 {
 					op.SetMax2 = int64([]int{0, 64, 4096, 8192}[rng.Intn(4)])
 					shape = append(shape, fmt.Sprintf("N%d", op.SetMax2))
+					for rng.Intn(2) == 0 && len(op.More) < 3 {
+						op.More = append(op.More, int64([]int{0, 20, 30, 64, 70, 100, 2048, 4096, 8192}[rng.Intn(9)]))
+						shape = append(shape, fmt.Sprintf("O%d", op.More[len(op.More)-1]))
+					}
 				}
 			}
 			nf := 1 + rng.Intn(8)
@@ -130,6 +136,11 @@ func c04Run(r *vf.Run, id string, disableComp, disableDyn bool, ops []c04Op) {
 			hp.SetMaxTableSize(uint32(op.SetMax2))
 			xd.SetAllowedMaxDynamicTableSize(uint32(op.SetMax2))
 			rd.SetAllowed(uint32(op.SetMax2))
+		}
+		for _, v := range op.More {
+			hp.SetMaxTableSize(uint32(v))
+			xd.SetAllowedMaxDynamicTableSize(uint32(v))
+			rd.SetAllowed(uint32(v))
 		}
 		var out []byte
 		stop := false
